@@ -423,15 +423,17 @@ fn radix26(mut i: usize) -> String {
     s
 }
 
-pub const NOISE: [&[u8]; 6] = [b"", b"garbage", b"    garbage", b"a -> b", b"  int x -> y", b"\xff\xfe"];
+pub const NOISE: [&[u8]; 7] = [b"", b"garbage", b"    garbage", b"a -> b", b"  int x -> y", b"\xff\xfe", b"\"}"];
 /// the unterminated sourceFile header: a malformed line like any other (C01: "unparseable lines")
 pub const NOISE_UNTERMINATED: &[u8] = b"# {\"id\":\"sourceFile\",\"fileName\":\"x";
 
 /// MS-E form invariance: base files x terminators x noise insertion x block permutation
-pub fn ms_e(thorough: bool) -> ListSpace {
+/// level 0: small (MS-B <= 2 bases, every 20th MS-C file), 1: MS-B <= 3, every 5th MS-C file, 2: everything + noise pairs
+pub fn ms_e(level: usize) -> ListSpace {
+    let thorough = level >= 2;
     let mut bases: Vec<Vec<Line>> = Vec::new();
     {
-        let b = ms_b(3, true);
+        let b = ms_b(if level == 0 { 2 } else { 3 }, true);
         let budget = Budget::new(3600);
         for item in 0..b.n_items() {
             b.run_item(item, &budget, &mut |l, _| {
@@ -443,7 +445,7 @@ pub fn ms_e(thorough: bool) -> ListSpace {
     }
     let c = ms_c();
     for (i, (l, _)) in c.files.iter().enumerate() {
-        if thorough || i % 5 == 0 {
+        if thorough || (level == 1 && i % 5 == 0) || i % 20 == 0 {
             bases.push(l.clone());
         }
     }
@@ -464,6 +466,17 @@ pub fn ms_e(thorough: bool) -> ListSpace {
                 files.push((f.clone(), Term::Lf));
                 if thorough {
                     files.push((f, Term::CrLf));
+                }
+            }
+        }
+        // the unterminated sourceFile header followed, anywhere later, by a line starting with `"}`
+        if !thorough && b.len() <= 3 {
+            for p1 in 0..=b.len() {
+                for p2 in p1..=b.len() {
+                    let mut f = b.clone();
+                    f.insert(p2, Line::Noise(b"\"}"));
+                    f.insert(p1, Line::Noise(NOISE_UNTERMINATED));
+                    files.push((f, Term::Lf));
                 }
             }
         }
@@ -510,7 +523,7 @@ pub fn ms_e(thorough: bool) -> ListSpace {
     }
     ListSpace {
         name: "MS-E form invariance".into(),
-        note: "every MS-B file of <=3 lines and MS-C files, under: each terminator policy (CRLF, CR, LF without final newline, blank line after every line); one noise line (blank, 'garbage', '    garbage', 'a -> b', '  int x -> y', invalid UTF-8, unterminated sourceFile header) at every position (thorough: two); every permutation of class blocks with pairwise distinct names".into(),
+        note: "every MS-B file of <=3 lines and MS-C files, under: each terminator policy (CRLF, CR, LF without final newline, blank line after every line); one noise line (blank, 'garbage', '    garbage', 'a -> b', '  int x -> y', invalid UTF-8, '\"}', unterminated sourceFile header) at every position (thorough: two); every permutation of class blocks with pairwise distinct names".into(),
         files,
         wide: false,
     }
